@@ -57,7 +57,7 @@
  */
 void snoopy_error_handler (char const * const errorMsg)
 {
-    const snoopy_configuration_t * CFG;
+    snoopy_configuration_t * CFG;
     char errorMsgFormatted[SNOOPY_ERROR_MSG_BUF_SIZE];
     errorMsgFormatted[0] = '\0';
 
@@ -70,5 +70,14 @@ void snoopy_error_handler (char const * const errorMsg)
     snprintf(errorMsgFormatted, SNOOPY_ERROR_MSG_BUF_SIZE, "SNOOPY ERROR: %s", errorMsg);
     errorMsgFormatted[SNOOPY_ERROR_MSG_BUF_SIZE-1] = '\0';
 
+    /*
+     * Dispatching the error message may itself run into an error (an output
+     * whose file cannot be opened, a syslog ident or file path template that
+     * does not fit its buffer, ...), which would bring us right back here and
+     * recurse until the stack is exhausted. Errors that occur while an error
+     * is being reported are therefore not reported.
+     */
+    CFG->error_logging_enabled = SNOOPY_FALSE;
     snoopy_action_log_message_dispatch(errorMsg);
+    CFG->error_logging_enabled = SNOOPY_TRUE;
 }
